@@ -302,6 +302,22 @@ def pDelivered : Delivered → String
 def pDeliveredList (l : List Delivered) : String :=
   String.join (l.map fun d => pDelivered d ++ " ; ") ++ "EOS"
 
+/-- the Spec's delivered sequence with the truncated tail marked `T` (an incomplete last
+    message, or fewer bytes than a header at the end): the property allows end-of-stream or an
+    error there, so the tail is not compared as a particular error -/
+def pSpecStream (w : Bool) (f : Option ProcessedFilter) (bs : Bytes) : String :=
+  let pieces := Spec.cut w bs
+  let h := (if w then 16 else 0) + 4
+  let consumed := pieces.foldl (fun n p => match p with
+    | .msg b => n + b.length
+    | .badLen => n + h
+    | .truncated => bs.length) 0
+  let items := pieces.map fun p => match p with
+    | .truncated => "T"
+    | p => pDelivered (Spec.deliver w f p)
+  let items := if consumed < bs.length then items ++ ["T"] else items
+  String.join (items.map fun d => d ++ " ; ") ++ "EOS"
+
 def readReq : P (Bool × Option ProcessedFilter × List Step × Bytes) := do
   let w ← bool
   let f ← opt filter
@@ -534,10 +550,10 @@ def dispatch (op : String) (args : List String) : Except String String :=
     pure (addSh m s us)
   | "READ" => do
     let (w, f, st, bs) ← run readReq args
-    pure (pDeliveredList (readAll st w f bs) ++ " @@ spec=" ++ pDeliveredList (Spec.readStream w f bs))
+    pure (pDeliveredList (readAll st w f bs) ++ " @@ spec=" ++ pSpecStream w f bs)
   | "AREAD" => do
     let (w, f, st, bs) ← run readReq args
-    pure (pDeliveredList (readAllAsync st w f bs) ++ " @@ spec=" ++ pDeliveredList (Spec.readStream w f bs))
+    pure (pDeliveredList (readAllAsync st w f bs) ++ " @@ spec=" ++ pSpecStream w f bs)
   | "SKIPLVL" => do
     let (mt, l) ← run (do let mt ← messageType; let l ← logLevel; pure (mt, l)) args
     let eh : ExtendedHeader :=
